@@ -442,7 +442,7 @@ func (s *c06source) Do(cmd string, args ...interface{}) (interface{}, error) {
 			return nil, fmt.Errorf("select with %T", v)
 		}
 		return "OK", nil
-	case "scan":
+	case "scan", "iscan":
 		ks := make([]interface{}, 0)
 		for _, k := range s.keys[s.cur] {
 			ks = append(ks, []byte(k))
@@ -597,6 +597,17 @@ func runC06(f []string) string {
 		c06apply(f[1:7])
 		conf.Options.TargetDB = atoi(c06field(f[7], "tdb="))
 		defer func() { conf.Options.TargetDB = -1 }()
+		if len(f) > 9 {
+			// sc=tencent|aliyun: the source is one of the special clouds (their own SCAN dialects; a Tencent cluster has the one
+			// logical database 0 and is not asked for its keyspace)
+			switch c06field(f[9], "sc=") {
+			case "tencent":
+				conf.Options.ScanSpecialCloud = utils.TencentCluster
+			case "aliyun":
+				conf.Options.ScanSpecialCloud = utils.AliyunCluster
+			}
+			defer func() { conf.Options.ScanSpecialCloud = "" }()
+		}
 		es := c06parseEnts(c06field(f[8], "E="))
 		src := &c06source{keys: c06keyspace(es), gone: map[string]bool{}}
 		goneName := map[string]bool{} // whether a vanished key is copied (empty) or skipped is C16's; its name is left out here
@@ -1003,7 +1014,14 @@ func (g *gen) c06path(kind string) {
 				}
 			}
 		}
-		g.emit("rump %s tdb=%d E=%s", cfg, tdb, strings.Join(es2, ","))
+		sc := ""
+		switch g.r.Intn(5) {
+		case 0, 1:
+			sc = " sc=tencent"
+		case 2:
+			sc = " sc=aliyun"
+		}
+		g.emit("rump %s tdb=%d E=%s%s", cfg, tdb, strings.Join(es2, ","), sc)
 	case "tail":
 		g.emit("tail %s S=%s", cfg, strings.Join(items, ","))
 	}
@@ -1065,7 +1083,7 @@ func genC06(g *gen) {
 	for i := 0; i < g.pick(25, 500); i++ {
 		g.c06path("tail")
 	}
-	for i := 0; i < g.pick(3, 50); i++ {
+	for i := 0; i < g.pick(16, 300); i++ {
 		g.c06path("rump")
 	}
 }
